@@ -41,6 +41,57 @@ func (c *Ctx) ScopeIf(f *ssa.Function, name string, which int, preds ...func(ssa
 	return Scope{}
 }
 
+// ScopeWhen: the region first entered through a branch edge on which every
+// wanted fact holds (a want may list alternatives separated by " | "; facts of
+// dominating branches count too, so `a && b` is matched by two wants). Unlike
+// ScopeIf it does not depend on which successor the compiler made the "then".
+func (c *Ctx) ScopeWhen(f *ssa.Function, name string, wants ...string) Scope {
+	if f == nil {
+		return Scope{}
+	}
+	c.funcsSeen[f] = true
+	for _, b := range f.Blocks {
+		if len(b.Instrs) == 0 {
+			continue
+		}
+		iff, ok := b.Instrs[len(b.Instrs)-1].(*ssa.If)
+		if !ok || b.Succs[0] == b.Succs[1] {
+			continue
+		}
+		for i, s := range b.Succs {
+			if !onlyEntersFrom(s, b, i) {
+				continue
+			}
+			have := factsAt(iff)
+			mine := map[string]bool{}
+			for _, ft := range edgeFacts(iff, i) {
+				have[ft] = true
+				mine[ft] = true
+			}
+			all, own := true, false
+			for _, w := range wants {
+				okw := false
+				for _, alt := range strings.Split(w, " | ") {
+					if have[alt] {
+						okw = true
+					}
+					if mine[alt] {
+						own = true
+					}
+				}
+				if !okw {
+					all = false
+				}
+			}
+			if all && own {
+				return Scope{F: f, Start: s, Name: fname(f) + "/" + name}
+			}
+		}
+	}
+	c.Machinef("anchor: %s has no branch %s", fname(f), name)
+	return Scope{}
+}
+
 func scopeBlocks(sc Scope) map[*ssa.BasicBlock]bool {
 	seen := map[*ssa.BasicBlock]bool{sc.Start: true}
 	st := []*ssa.BasicBlock{sc.Start}
